@@ -513,6 +513,9 @@ def must_facts(cfg, normaliser, extra_kill=None, edge_ok=None,
                extra_gen=None):
     """dict node -> frozenset(Atom) holding on *entry* of the node on every
     path (exceptional edges included unless filtered)."""
+    from . import cfg as _cfg
+    _cfg.STATS['queries'] += 1
+    _cfg.STATS['visited'] += len(cfg.nodes)
     top = None
     state = {n: top for n in cfg.nodes}
     state[cfg.entry] = frozenset()
